@@ -157,8 +157,10 @@ func (c *c04) treeWorkload(n int, shape ref.TreeShape) {
 		}
 		done++
 	}
-	if len(tc.Recorded) != n {
-		panic(fmt.Sprintf("harness: wanted %d recorded withdrawals, have %d", n, len(tc.Recorded)))
+	// what L2 accepted is read from its state (sequences consumed); every one of them must have been announced
+	if accepted := int(tc.L2.NextL2Seq() - 1); !c.run.Check("C04.accepted_withdrawal_is_announced", accepted == len(tc.AllWithdrawals) && len(tc.Recorded) == n, "c04.accepted_withdrawal_not_announced.tree", nil,
+		"L2 consumed %d withdrawal sequences, %d withdrawals were announced (workload issued %d): the others can never be committed or claimed", accepted, len(tc.AllWithdrawals), n) {
+		return
 	}
 	c.drain(tc, shape, "tree", nil)
 }
